@@ -15,7 +15,7 @@ use crate::models::*;
 use crate::udpdrv::*;
 use crate::vensure;
 
-pub const RULE: &str = "(histories) C01's generator with statistics, peer-client tallies, histograms and scrape exports on, 6 peer ids of distinct clients, re-announces of a stored address under a new peer id, stops and expiries; after every clean: the four swarm totals == model, the fold of the PeerAdded/PeerRemoved stream (the statistics worker's rule) == number of stored entries per peer id, each export file == exactly the model's `{4|6} <hex> <seeders> <leechers>` lines. (crash points, fault enumeration) a child process exports state A, mutates to state B and exports again; a probe handler aborts the process at each individual step the export emits (created, every line, before_flush, flushed, renamed) and — second variant — pauses there while a reader reads the path; the file at the configured path must be byte-complete F_A or F_B. Paths with extension .txt, none, two dots and .tmp. non-trivial (histories) = a stored key changed peer id or a peer expired with tallies on; (crash points) = step strictly between created and renamed; distinct = distinct serialised case / (scenario, path kind, step)";
+pub const RULE: &str = "(histories) C01's generator with statistics, peer-client tallies, histograms and scrape exports on, 6 peer ids of distinct clients, re-announces of a stored address under a new peer id, stops and expiries; after every clean: the four swarm totals == model, the fold of the PeerAdded/PeerRemoved stream (the statistics worker's rule) == number of stored entries per peer id, each export file == exactly the model's `{4|6} <hex> <seeders> <leechers>` lines. (crash points, fault enumeration) a child process exports state A, mutates to state B and exports again; a probe handler aborts the process at each individual step the export emits (created, every line, before_flush, flushed, renamed) and — second variant — pauses there while a reader reads the path; the file at the configured path must be byte-complete F_A or F_B; after an abort the tracker is started again with a smaller state C and exports to the same path, which must then hold exactly F_C (left-overs of the interrupted export must not show). Paths with extension .txt, none, two dots and .tmp. non-trivial (histories) = a stored key changed peer id or a peer expired with tallies on; (crash points) = step strictly between created and renamed; distinct = distinct serialised case / (scenario, path kind, step)";
 
 pub fn prop_hist(case: &UdpCase) -> CaseResult {
     let mut o = run_udp_case(
@@ -133,12 +133,7 @@ fn file_state(path: &std::path::Path) -> Result<BTreeSet<String>, String> {
 }
 
 /// Runs inside the child process (and in-process for the reader variant)
-fn run_scenario(case: &CrashCase, dir: &std::path::Path, on_step: Arc<dyn Fn(usize, &'static str, u64) + Send + Sync>) -> Result<(), String> {
-    let path = path_for(dir, case.scenario.path_kind);
-    let ucase = UdpCase { max_response_peers: 30, rng_seed: 1, peer_clients: false, histograms: false, access_mode: 0, ops: vec![] };
-    let mut h = UdpHarness::new(&ucase, Some(path.clone()));
-    let (a, b) = scenario_ops(&case.scenario);
-    let run_ops = |h: &mut UdpHarness, ops: &[UdpOp]| {
+fn apply_ops(h: &mut UdpHarness, ops: &[UdpOp]) {
         for op in ops {
             if let UdpOp::Announce { t, fam, ip, port, pid, event, left, .. } = op {
                 use aquatic_udp_protocol::*;
@@ -167,8 +162,9 @@ fn run_scenario(case: &CrashCase, dir: &std::path::Path, on_step: Arc<dyn Fn(usi
                 );
             }
         }
-    };
-    let clean = |h: &UdpHarness| {
+    }
+
+fn clean_export(h: &UdpHarness) {
         h.maps.clean_and_update_statistics(
             &h.config,
             &h.statistics,
@@ -177,7 +173,31 @@ fn run_scenario(case: &CrashCase, dir: &std::path::Path, on_step: Arc<dyn Fn(usi
             aquatic_common::SecondsSinceServerStart::new_raw(1),
             true,
         )
-    };
+    }
+
+/// The tracker is started again after the crash with a small state C (the first announce of the
+/// scenario, or nothing) and exports to the same path: whatever the interrupted export left
+/// behind (a temporary file with content, a partial file), this export must be exactly C.
+fn recovery_export(case: &CrashCase, dir: &std::path::Path) -> BTreeSet<String> {
+    let path = path_for(dir, case.scenario.path_kind);
+    let ucase = UdpCase { max_response_peers: 30, rng_seed: 1, peer_clients: false, histograms: false, access_mode: 0, ops: vec![] };
+    let mut h = UdpHarness::new(&ucase, Some(path));
+    let (a, _) = scenario_ops(&case.scenario);
+    let c: Vec<UdpOp> = a.into_iter().take(1).collect();
+    apply_ops(&mut h, &c);
+    clean_export(&h);
+    let mut model = SwarmModel::default();
+    apply_to_model(&mut model, &c);
+    export_lines(&model)
+}
+
+fn run_scenario(case: &CrashCase, dir: &std::path::Path, on_step: Arc<dyn Fn(usize, &'static str, u64) + Send + Sync>) -> Result<(), String> {
+    let path = path_for(dir, case.scenario.path_kind);
+    let ucase = UdpCase { max_response_peers: 30, rng_seed: 1, peer_clients: false, histograms: false, access_mode: 0, ops: vec![] };
+    let mut h = UdpHarness::new(&ucase, Some(path.clone()));
+    let (a, b) = scenario_ops(&case.scenario);
+    let run_ops = apply_ops;
+    let clean = clean_export;
     run_ops(&mut h, &a);
     clean(&h);
     run_ops(&mut h, &b);
@@ -293,6 +313,25 @@ pub fn prop_crash(case: &CrashCase) -> CaseResult {
             }
         }
         judge(&format!("after crash at step {:?} (steps seen: {})", case.step, steps.len()), &mut out)?;
+        // restart after the crash
+        {
+            static LOCK: Mutex<()> = Mutex::new(());
+            let _g = LOCK.lock().unwrap_or_else(|e| e.into_inner());
+            let fc = recovery_export(case, dir.path());
+            out.checks += 1;
+            match file_state(&path) {
+                Ok(set) => vensure!(
+                    set == fc,
+                    "export-after-restart-differs",
+                    "after a crash at step {:?} the tracker was started again holding {:?} and exported to the same path: the file holds {:?} (left-overs of the interrupted export?)",
+                    case.step,
+                    fc,
+                    set
+                ),
+                Err(e) => return Err(Violation::new("export-partial-or-missing", format!("export after restart: {e}"))),
+            }
+            out.label("export-after-restart");
+        }
     } else {
         // reader variant, in-process: pause at the step, read, continue
         let result: Arc<Mutex<Option<Result<(), Violation>>>> = Arc::new(Mutex::new(None));
